@@ -137,7 +137,14 @@ def check_minified(prog, src, config, res, fam, obj, out, light=False):
         return None
     insig = reflex.significant(intoks)
     try:
-        outtoks = reflex.lex(out)
+        # the minifier decides anew which tokens touch: its output must lex under stock Lua numerals as well (no numeral
+        # written directly against '..'), unless the input itself already relied on PICO-8's reading of that form
+        try:
+            reflex.lex(src, numeral_concat=False)
+            strict = True
+        except reflex.Reject:
+            strict = False
+        outtoks = reflex.lex(out, numeral_concat=not strict)
     except reflex.Reject as e:
         # find the pair that fused: first position where the output cannot be re-lexed
         res.violation('C01|output-unlexable|%s' % fused_pair(insig, out), 'luamin(%r) = %r does not lex: %s' % (src, out, e), case)
@@ -298,6 +305,16 @@ def cli_batch(res, tier):
             if rc_ != 0 or code.rstrip(b'\n') != want.rstrip(b'\n'):
                 res.violation('C01|cli|luamin|differs|%s' % config,
                               'p8tool luamin %s on %r wrote %r, the writer gives %r' % (' '.join(flags[:1]), src, code, want), case)
+            # the token count `p8tool stats` reports is the same before and after
+            from lib import cli
+            st_in = cli.stats_csv(path)
+            st_out = cli.stats_csv(os.path.join(d, 'm%d_fmt.p8' % n))
+            if st_in is None or st_out is None or st_in.get('Token Count') != st_out.get('Token Count') or \
+                    st_in.get('Token Count') != str(obj.get_token_count()):
+                res.violation('C01|cli|stats-token-count',
+                              '`p8tool stats --csv` reports %r tokens for %r and %r for its luamin output (library count %d)' % (
+                                  st_in and st_in.get('Token Count'), src, st_out and st_out.get('Token Count'),
+                                  obj.get_token_count()), case)
             # build --lua-minify from a .lua file
             luaf = os.path.join(d, 'b%d.lua' % n)
             open(luaf, 'wb').write(src)
@@ -329,7 +346,7 @@ EXTRA = [b'x=1 -- c\ny=2\n', b'x=1 // c\ny=2\n', b'if (a) b=1 -- c\nc=2\n', b'if
 
 def shards(tier, seed):
     items = c08.program_shards(tier, seed, tag='c01')
-    items += [('extra',), ('cli', tier)] + [('stringpairs', k, 4) for k in range(4)] + [('stringbytes', k, 8) for k in range(8)]
+    items += [('extra',), ('cli', tier)] + [('stringpairs', k, 4) for k in range(4)] + [('stringbytes', k, 8) for k in range(8)] + [('population', k, 4) for k in range(4)]
     return items
 
 
@@ -377,6 +394,14 @@ def run_shard(item):
                 for src in (b'x=' + a + b' y=' + b + b'\n', b'f(' + a + b',' + b + b')\n'):
                     run_one(None, src, CONFIGS[n % 3], res, 'extra')
         res.sample({'family': 'stringpairs', 'src': b"x='say \"hi\"' y=\"say \\\"hi\\\"\"\n"})
+    elif kind == 'population':
+        # programs with hundreds of distinct identifiers (multi-letter generated names, wrap points of the numbering)
+        from props import c02
+        for i, src in enumerate(c02.population_programs()):
+            if i % item[2] == item[1]:
+                for cfg in CONFIGS:
+                    run_one(None, src, cfg, res, 'extra')
+        res.sample({'family': 'population', 'names': 'v0_..v{K-1}_ then a..z, aa, ab ... for K around 26, 52, 702, 728'})
     elif kind == 'stringbytes':
         # every byte value in a quoted string: raw (where a raw byte is legal) and as a decimal / hex escape, in both
         # quote kinds, followed by a digit, a letter, or the closing quote (the minifier re-spells string literals)
